@@ -36,6 +36,8 @@ pub struct Ctx {
     pub nshards: u64,
     pub lane: String,
     pub scale: f64,
+    /// interpreter-speed lanes (Miri): shrink fixed parts of workloads too
+    pub small: bool,
     pub rng: Rng,
     pub evaluations: u64,
     pub nontrivial: HashSet<u64>,
@@ -84,6 +86,7 @@ impl Ctx {
             nshards,
             lane: lane.to_string(),
             scale,
+            small: cfg!(miri),
             rng: Rng::from_parts(seed, pid, shard),
             evaluations: 0,
             nontrivial: HashSet::new(),
